@@ -351,7 +351,12 @@ class GraphBasedModelConstructor:
 
     def detect_similar_isoforms(self, model_storage):
         to_substitute = {}
-        for model in model_storage:
+        # of two similar novel models the better supported one stays (known ones first, the order of the storage -
+        # by coordinate - only breaks ties)
+        models_by_support = sorted(model_storage,
+                                   key=lambda x: (x.transcript_type != TranscriptModelType.known,
+                                                  -self.internal_counter[x.transcript_id]))
+        for model in models_by_support:
             if len(model.exon_blocks) <= 2 or model.transcript_id in to_substitute:
                 continue
             transcript_model_gene_info = GeneInfo.from_models([model], self.params.delta)
